@@ -295,7 +295,12 @@ META = {
                  "by the deadline. Tie: 32 constants / expression shapes re-extracted with bridge lemmas; real client+server dc streams run "
                  "inside the bach simulation (UDP, with seeded drop / duplicate / delay of packets, MTUs 1250..32k, early shutdown / drop, "
                  "vanished peer, forgotten path secret) and over TCP on loopback, with keyed position-dependent payloads, and an oracle for "
-                 "wrong / lost / duplicated bytes, incomplete EOF, hangs, late or missing errors and panics."),
+                 "wrong / lost / duplicated bytes, incomplete EOF, hangs, late or missing errors and panics. The stream-socket (TCP) send "
+                 "queue (stream/send/queue.rs) is modelled and proved for every push / flush history and every socket behaviour (short writes "
+                 "of any size, pending, errors): what the socket accepted is a prefix of what was pushed, nothing is sent twice or skipped, "
+                 "everything is sent once the queue is empty, the write credit is reported only after the flush (sendq_* theorems; the "
+                 "`offset := n` variant is refuted); tied by translation of the offset update / pop condition and by a differential run of "
+                 "the real Queue against a scripted stream socket."),
         "note": ("Sender/receiver state machines are skeletons (named abstractions of the Rust functions, listed in the file headers); the "
                  "sender's own timers and the TCP framing path are not modelled; TCP scenarios cannot inject faults and run in real time."),
         "technique": "Lean 4 instance of the reassembly/composition theorem over dc sender/receiver skeletons + regenerated-constant bridges + simulated end-to-end dc streams with fault injection",
